@@ -3252,6 +3252,12 @@ nested_parse_template_instantiation(CPPTemplateScope *scope) {
       ++pi;
     }
 
+    if (_state == S_eof) {
+      // We ran out of input before finding the closing angle bracket; a
+      // parameter pack would otherwise keep us here forever.
+      break;
+    }
+
     _state = S_nested;
     _paren_nesting = 0;
   }
